@@ -31,8 +31,13 @@ func (c exactEqualsComparator) eq(a, b Coordinates) bool {
 	if a.Type != b.Type {
 		return false
 	}
-	asb := a.XY.Sub(b.XY)
-	if asb.lengthSq() > c.toleranceSq {
+	if c.toleranceSq == 0 {
+		// Compare directly rather than via the squared distance, which
+		// underflows to zero for tiny (but non-zero) differences.
+		if a.XY != b.XY {
+			return false
+		}
+	} else if a.XY.Sub(b.XY).lengthSq() > c.toleranceSq {
 		return false
 	}
 	if a.Type.Is3D() && a.Z != b.Z {
